@@ -639,6 +639,9 @@ func (adapter *Adapter) watchAdapter(
 			return nil, err
 		}
 
+		// the retry budget (max elapsed time) starts when the stream breaks, not when the watch was established
+		backoff.Reset()
+
 		for {
 			// retry loop - at the beginning of the loop 'err' is the error to be retried,
 			// lastBookmark is the last seen bookmark
@@ -689,9 +692,11 @@ func (adapter *Adapter) watchAdapter(
 			}
 
 			msg, err = cli.Recv()
-			if err == nil {
-				backoff.Reset()
 
+			// the stream was re-established, so the retry succeeded: if it has broken again since, that starts a new budget
+			backoff.Reset()
+
+			if err == nil {
 				return msg, nil
 			}
 		}
